@@ -37,7 +37,7 @@ def stName : St → String
 
 def werrName : WErr → String
   | .einval => "einval exception" | .einconceivable => "einconceivable exception" | .efail => "fail exception"
-  | .esyntax => "esyntax" | .fault => "fault"
+  | .esyntax => "esyntax" | .fault => "fault" | .einvalLetters _ => "einval exception"
 
 def resLine (r : Res) : String := if r.exc then stName r.st ++ " exception" else stName r.st
 
@@ -298,7 +298,7 @@ def step (s : S) (line : String) : S × String :=
       match removeBrokenFromSS ss mask with
       | .ok s2 => (s, "ok ss=" ++ oStr (some s2))
       | .error .fault => (s, "fault")
-      | .error e => (s, werrName e ++ " ss=" ++ oStr (some ss))
+      | .error e => (s, werrName e ++ " ss=" ++ oStr (some (ssAfterError e ss)))
     | _, _ => (s, "bad-op")
   | _ => (s, "bad-op")
 
